@@ -264,6 +264,44 @@ def rule_no_mutation(ck: Check, repo: Repo, rid: str = "R5") -> None:
     r.floor(3, "mutation sites examined", got=n)
 
 
+# ------------------------------------------------------------------ R9: a new .license sibling hides what the file itself declares
+READERS = ("reuse_info_of_file", "extract_reuse_info", "reuse_info_of", "contains_reuse_info", "decoded_text_from_binary")
+
+
+def rule_sibling_hides(ck: Check, repo: Repo, rid: str = "R9") -> None:
+    """FILE.license takes precedence over FILE: once it exists, the reader looks at nothing else.  Where annotate
+    redirects the header of an existing text file to a (new) sibling - --force-dot-license, an uncommentable type,
+    --fallback-dot-license - the information FILE itself declares stops being declared unless it is carried over.
+    Decided: in the redirecting branches (command loop and add_header_to_file), whether the original file is read at all."""
+    r = ck.rule(rid, "redirecting the header to FILE.license keeps what FILE itself declares (the file is read before the sibling hides it)")
+    sites = []
+    for q in (repo.qualname_of(repo.commands()["annotate"]), "reuse._annotate.add_header_to_file"):
+        fn = repo.func(q)
+        ck.analysed_fn(q)
+        for node in ast.walk(fn):
+            if not isinstance(node, ast.If):
+                continue
+            body_calls = [c for st in node.body for c in ast.walk(st) if isinstance(c, ast.Call)]
+            direct = [c for st in node.body if not isinstance(st, ast.If) for c in ast.walk(st) if isinstance(c, ast.Call)
+                      and ast.unparse(c.func).split(".")[-1] == "_determine_license_suffix_path"]
+            if not direct:
+                continue
+            reads = [ast.unparse(c.func) for c in body_calls if ast.unparse(c.func).split(".")[-1] in READERS]
+            sites.append((q, node, reads))
+    if not sites:
+        raise AnalysisError("no branch redirects the header to a .license sibling (anchor vanished)")
+    for q, node, reads in sites:
+        cond = ast.unparse(node.test)
+        r.instance(f"redirect:{q.split('.')[-1]}", {"condition": cond[:120], "reads_original": reads}, q)
+    # the command-level redirect is the one that applies to files with a header of their own
+    unread = [(q, node) for q, node, reads in sites if not reads]
+    if unread:
+        q, node = unread[0]
+        r.violation(q, "the header is redirected to a .license sibling and the file's own declarations are not carried over",
+                    "`a.py` with `2019 Old / 0BSD` in its header, `reuse annotate -c New -l MIT --force-dot-license a.py`: a.py.license holds only"
+                    " New / MIT and - the sibling taking precedence - lint no longer reports Old / 0BSD for a.py", repo.loc(node))
+
+
 def run(ck: Check, repo: Repo) -> None:
     ck.explanation = (
         "R1 on every path of create_header with an existing header, the information handed to the renderer is the"
@@ -288,3 +326,4 @@ def run(ck: Check, repo: Repo) -> None:
     # what a run re-renders (the union of old and new information) must be written verbatim (shared with C07-R2)
     r8 = ck.rule("R8", "template environments write values verbatim (no auto-escaping of re-rendered information)")
     c07.environments_verbatim(r8, repo)  # an existing header that is not found is not merged either
+    rule_sibling_hides(ck, repo)
